@@ -613,6 +613,13 @@ def check_loop(ctx, rep, INNER_FN, se, pr, lp):
             mode = "enumerate"
             c_term = ("field", item, 1)
             i_term = ("field", item, 0)
+        elif util.is_call(x, "core::str::<impl str>::char_indices") and strip(x[2][0]) == ("param", 1):
+            # for (at, c) in s.char_indices(): `at` is the byte offset of c.  Every character stored
+            # so far was accepted - one ASCII byte each (accepted set below) - and the first refused
+            # one ends the function, so at the store the offset is the character's position
+            mode = "char_indices"
+            c_term = ("field", item, 1)
+            i_term = ("field", item, 0)
         elif util.is_call(x, "std::iter::Iterator::enumerate") and util.is_call(strip(x[2][0]), "std::iter::Iterator::zip") and util.is_call(strip(strip(x[2][0])[2][0]), "core::str::<impl str>::bytes") and strip(strip(strip(x[2][0])[2][0])[2][0]) == ("param", 1) and util.is_call(strip(strip(x[2][0])[2][1]), "core::slice::<impl [T]>::iter_mut"):
             # for (i, (b, out)) in s.bytes().zip(array.iter_mut()).enumerate(): byte i of the text
             # goes to slot i.  While every byte so far was accepted (printable ASCII), byte i is
@@ -665,7 +672,7 @@ def check_loop(ctx, rep, INNER_FN, se, pr, lp):
     # ------------------------------------------------------------ char set by abstract interpretation
     store_blocks = {}
     for (bi, si), (loc, v) in se.assigns.items():
-        if mode == "enumerate" and loc[0] == "index" and loc[1][0] == "local":
+        if mode in ("enumerate", "char_indices") and loc[0] == "index" and loc[1][0] == "local":
             store_blocks[bi] = (loc, v)
         if mode == "counter" and loc[0] == "index" and (loc[1][0] == "local" or (loc[1][0] == "field" and loc[1][1][0] == "local")):
             store_blocks[bi] = (loc, v)
@@ -774,6 +781,9 @@ def check_loop(ctx, rep, INNER_FN, se, pr, lp):
         missing = minus(ACCEPT, accept)
         rep.check(accept == ACCEPT, "char-set", INNER_FN, "accepted-set", "accepted characters = %s" % show_set(accept), "accepted character set is %s; wrongly accepted %s, wrongly refused %s" % (show_set(accept), show_set(extra), show_set(missing)), body.loc())
         rep.check(norm_set(accept + reject) == DOMAIN, "char-set", INNER_FN, "total", "every character is either stored or reported" if mode != "bytes" else "every byte value is either stored or leads to the error (bytes >= 0x80 start a refused character)", "some characters reach neither the store nor the error", body.loc())
+    if mode == "char_indices":
+        # the premise of reading the byte offset as the position
+        rep.check(not undec and accept == ACCEPT and norm_set(accept + reject) == DOMAIN, "first-offender", INNER_FN, "offset-is-position", "every stored character is one ASCII byte and the first refused one ends the function: byte offset = position at every store", "char_indices(): the byte offset is used as the position, but the characters stored before are not all single ASCII bytes / a refused character does not end the loop", body.loc())
     good = bool(err_blocks) and all(strip(v[4][0]) == c_term for v in err_blocks.values())
     if mode == "bytes":
         # the character reported is the one that starts at the refused byte: s[i..].chars().next()
